@@ -84,7 +84,12 @@ Definition c10_op_dom (be : backend) (b : base) (o : dbop) : bool :=
     | BFs false => wf_key k
     | _ => key_ok b k
     end
-  | ODump p => match be with BFs true => bytes_ok p | BFs false => text_prefix_ok p | _ => true end
+  | ODump p =>
+    match be with
+    | BFs true => bytes_ok p
+    | BFs false => text_prefix_ok p
+    | _ => true
+    end
   | _ => true
   end.
 Fixpoint c10_dom (be : backend) (sp : spec) (ops : list dbop) : bool :=
@@ -95,6 +100,19 @@ Fixpoint c10_dom (be : backend) (sp : spec) (ops : list dbop) : bool :=
 
 Definition dump_same (l l' : list (bytes * bytes)) : bool :=
   kvs_eqb (asort l) (asort l').
+
+(* Postgres Dump clears the handle's language (SetLanguage(nil)) before anything else *)
+Definition pg_dump_ctx (sp : spec) : spec := mkSpec (set_language (sp_base sp) None) (sp_map sp).
+(* C10 claims listing for the filesystem backend; a Postgres listing (prefix-bounded since the
+   repair of dump.go) is judged in addition, in the states in which the listing theorem of the
+   filesystem backend applies as well: documented type, a session id set exactly when the type is
+   sessioned, no translation and no empty key stored for the type *)
+Definition pg_dump_scope (sp : spec) : bool :=
+  let b := sp_base sp in
+  documented_type (b_pfx b)
+  && (if sessioned (b_pfx b) then negb (is_nil (b_sid b)) else is_nil (b_sid b))
+  && forallb (fun e : akey * bytes =>
+       negb ((a_typ (fst e) =? b_pfx b) && (is_some (a_lang (fst e)) || is_nil (a_key (fst e))))) (sp_map sp).
 
 (* what the property demands of one observed result; returns the advanced reference state *)
 Definition c10_step (be : backend) (sp : spec) (o : dbop) (r : dbres) : spec * bool :=
@@ -114,16 +132,25 @@ Definition c10_step (be : backend) (sp : spec) (o : dbop) (r : dbres) : spec * b
   | OSetLock _ _ =>
     (ctx_step sp o, match snd (spec_step sp o) with DOk => dbres_eqb r DOk | _ => is_derr r end)
   | ODump p =>
-    (sp, match be with
-         | BFs _ =>
-           match spec_listing sp p, r with
+    match be with
+    | BFs _ =>
+      (sp, match spec_listing sp p, r with
            | [], DErr ENotFound => true
            | l, DDump l' => dump_same l l'
            | _, _ => false
-           end
-         | _ => true   (* listing is implemented on the filesystem backend only *)
-         end)
-  | OPaths _ => (sp, true)
+           end)
+    | BPg =>
+      let sp' := pg_dump_ctx sp in
+      (sp', if pg_dump_scope sp' then
+              match spec_listing sp' p, r with
+              | [], DErr ENotFound => true
+              | l, DDump l' => dump_same l l'
+              | _, _ => false
+              end
+            else true)
+    | BMem => (sp, true)   (* "unimplemented" *)
+    end
+  | OPaths _ | ODecode _ => (sp, true)
   | _ => (ctx_step sp o, dbres_eqb r DOk)
   end end.
 
